@@ -353,10 +353,15 @@ def minimise(prop, proj, seeds, bad, w, d, budget_s=120):
     # how loaded the machine is
     budget = {"left": budget_s}
     sig = signature(prop, proj, bad)
-    if any(b.get("run") == "swarm_asan" for b in bad):
-        proj = dict(proj, _asan=1)       # the failure needs the sanitizer build: use it for every schedule
-    # 1. keep only schedule seeds that matter (at most the failing ones)
     fseeds = [b["seed"] for b in bad if b.get("seed")]
+    if any(b.get("run") == "swarm_asan" for b in bad):
+        # seen in a run of the sanitizer build: only when the plain build does not show the same
+        # failure on the same seeds is the (5-10 times slower) sanitizer build used for every
+        # re-build, and then with a small budget
+        if not still_fails(prop, proj, sorted(set(fseeds)), w, d, sig)[0]:
+            proj = dict(proj, _asan=1)
+            budget["left"] = min(budget["left"], 40)
+    # 1. keep only schedule seeds that matter (at most the failing ones)
     seeds = sorted(set(fseeds))[:2] if fseeds else []
     ok, b2 = still_fails(prop, proj, seeds, w, d, sig)
     if not ok:
